@@ -6,6 +6,7 @@ use crate::interp::{has_opaque, shape};
 use crate::oracles::*;
 use bc_components::DigestProvider;
 use bc_envelope::prelude::*;
+use dcbor::prelude::*;
 
 pub struct Budget { pub scenarios: usize, pub thorough: bool }
 
@@ -305,5 +306,99 @@ fn unordered_collections(c: &mut Ctx, b: &Budget) {
         c.check("dcbor-map-deterministic", digests_dmap.len() == 1, "dcbor-map-order", || format!("{} digests", digests_dmap.len()));
         c.check("hashset-deterministic", digests_set.len() == 1, "hashset-order", || format!("{} different digests for one HashSet with elements {:?}", digests_set.len(), items));
         c.end();
+    }
+}
+
+// ---------------------------------------------------------------------------------- C06
+
+/// rewrite the deprecated leaf tag 24 to 201 at envelope positions (the only tolerated alias)
+fn legacy_norm(c: &CBOR) -> CBOR {
+    match c.as_case() {
+        CBORCase::Tagged(t, item) => match t.value() {
+            24 => CBOR::to_tagged_value(201u64, item.clone()),
+            200 => CBOR::to_tagged_value(200u64, legacy_norm(item)),
+            _ => c.clone(),
+        },
+        CBORCase::Array(xs) => CBORCase::Array(xs.iter().map(legacy_norm).collect()).into(),
+        CBORCase::Map(m) => { let mut out = Map::new(); for (k, v) in m.iter() { out.insert(legacy_norm(k), legacy_norm(v)); } out.into() }
+        _ => c.clone(),
+    }
+}
+
+fn decode_case(c: &mut Ctx, family: &str, kind: &str, bytes: &[u8]) {
+    c.begin(family);
+    c.count(&format!("mutation:{}", kind));
+    let hx = hex::encode(bytes);
+    let r = if hx.is_empty() { c.assign("decode ") } else { c.assign(&format!("decode {}", hx)) };
+    let v = c.val(&r);
+    // classification of what the generator produced
+    let parsed = CBOR::try_from_data(bytes);
+    let g = match &parsed {
+        Ok(cb) => match cb.as_case() { CBORCase::Tagged(t, inner) if t.value() == 200 => grammar(inner).map(|_| ()), _ => Err("missing envelope tag".to_string()) },
+        Err(e) => Err(format!("not dCBOR: {}", e)),
+    };
+    c.count(if g.is_ok() { "input:grammatical" } else { "input:ungrammatical" });
+    match &v {
+        crate::interp::Val::Panic(site) => { let site = site.clone(); c.check("decode-no-panic", false, "decode-panic", || format!("decode panicked at {} on {}", site, hx)); }
+        crate::interp::Val::Env(e) => {
+            c.count("decode:accepted");
+            c.note_shape(e);
+            c.obs(&format!("shape {}", r));
+            c.obs(&format!("bytes {}", r));
+            let re = e.tagged_cbor().to_cbor_data();
+            let exact = re == bytes;
+            let alias = !exact && parsed.as_ref().map(|cb| legacy_norm(cb).to_cbor_data() == re).unwrap_or(false);
+            if alias { c.count("decode:legacy-alias"); }
+            let why = match &g { Err(m) => m.clone(), Ok(()) => "grammar ok".into() };
+            let key = if why.contains("ascending") { "accepts-misordered" } else if why.contains("repeated") { "accepts-repeated" }
+                else if why.starts_with("encrypted") { "accepts-bad-encrypted" } else if why.starts_with("compressed") { "accepts-bad-compressed" }
+                else { "accepts-noncanonical" };
+            c.check("reencode-exact", exact || alias, key, || format!("decode accepted {} ({}; mutation {}) but re-encodes to {}", hx, why, kind, hex::encode(&re)));
+            // the independent recogniser must agree on acceptance (modulo the alias)
+            let g2 = if alias { Ok(()) } else { g.clone() };
+            c.check("grammar-agrees", g2.is_ok() || !(exact || alias), key, || format!("decode accepted {} which the grammar rejects: {}", hx, why));
+            let r2 = check_spec_digests(e);
+            c.check("decoded-digests", r2.is_ok(), "decoded-digests", || r2.unwrap_err());
+        }
+        _ => { c.count("decode:rejected"); if g.is_ok() { c.count("decode:rejected-grammatical"); } }
+    }
+    c.end();
+}
+
+/// C06 - the decoder accepts only canonical envelopes and never crashes
+pub fn c06(c: &mut Ctx, b: &Budget) {
+    use crate::mutate::*;
+    let mut cfg = GenCfg::default();
+    cfg.small_alphabet = false;
+    for (name, bytes) in handmade() { decode_case(c, "handmade", name, &bytes); }
+    for i in 0..b.scenarios {
+        // a valid envelope, built silently on a scratch context
+        let mut scratch = Ctx::new("scratch", c.rng.next());
+        scratch.begin("x");
+        let mut cur = gen_env(&mut scratch, &cfg, 3);
+        if i % 2 == 0 { for _ in 0..scratch.rng.range(1, 2) { let n = gen_obscure(&mut scratch, &cur); if scratch.is_ok(&n) { cur = n; } } }
+        let e = match scratch.env(&cur) { Some(e) => e, None => continue };
+        let bytes = e.tagged_cbor().to_cbor_data();
+        decode_case(c, "valid", "none", &bytes);
+        let tree = CBOR::try_from_data(&bytes).unwrap();
+        let n_mut = if b.thorough { 8 } else { 5 };
+        for _ in 0..n_mut {
+            let (m1, k1) = mutate_once(&mut c.rng, &tree);
+            decode_case(c, "structural-1", k1, &m1.to_cbor_data());
+            if c.rng.chance(1, 2) {
+                let (m2, k2) = mutate_once(&mut c.rng, &m1);
+                decode_case(c, "structural-2", k2, &m2.to_cbor_data());
+            }
+        }
+        for _ in 0..n_mut {
+            let (m, k) = byte_mutate(&mut c.rng, &bytes);
+            decode_case(c, "byte", k, &m);
+        }
+        if i % 4 == 0 {
+            let n = c.rng.range(1, 24);
+            let mut rb = c.rng.bytes(n);
+            if c.rng.chance(2, 3) { let mut p = vec![0xd8, 0xc8]; p.append(&mut rb); rb = p; }
+            decode_case(c, "random", "random", &rb);
+        }
     }
 }
